@@ -120,4 +120,158 @@ def lookupCount (m : List (TKey × Nat)) (k : TKey) : Nat :=
   | [] => 0
   | (k', c) :: rest => if k' == k then c else lookupCount rest k
 
+/-! ### The memoised algorithm on trees that carry cached labels
+
+`relabel_nodes` returns the stored labels of an object whose `gengy_labeled` flag is set WITHOUT
+looking at its children, and otherwise computes the labels from the children's results and
+stores them on the object.  Class instances and `GengyList`s can carry the attributes
+(`cache`); base values, tuples and foreign objects cannot. -/
+
+inductive LVal where
+  | int (i : Int)
+  | float
+  | str (s : String)
+  | bool (b : Bool)
+  | node (cache : Option Lab) (cls depth exp : Nat) (args : List LVal)
+  | list (cache : Option Lab) (depth exp : Nat) (vs : List LVal)
+  | tuple (vs : List LVal)
+  | foreign (tag : String)
+  deriving Repr, Inhabited
+
+mutual
+/-- forget the cached labels -/
+def LVal.erase : LVal → Val
+  | .int i => .int i
+  | .float => .float
+  | .str s => .str s
+  | .bool b => .bool b
+  | .node _ c d e args => .node c d e (LVal.eraseList args)
+  | .list _ d e vs => .list d e (LVal.eraseList vs)
+  | .tuple vs => .tuple (LVal.eraseList vs)
+  | .foreign t => .foreign t
+def LVal.eraseList : List LVal → List Val
+  | [] => []
+  | v :: vs => LVal.erase v :: LVal.eraseList vs
+end
+
+mutual
+/-- a value on which nothing is labelled yet -/
+def LVal.fresh : Val → LVal
+  | .int i => .int i
+  | .float => .float
+  | .str s => .str s
+  | .bool b => .bool b
+  | .node c d e args => .node none c d e (LVal.freshList args)
+  | .list d e vs => .list none d e (LVal.freshList vs)
+  | .tuple vs => .tuple (LVal.freshList vs)
+  | .foreign t => .foreign t
+def LVal.freshList : List Val → List LVal
+  | [] => []
+  | v :: vs => LVal.fresh v :: LVal.freshList vs
+end
+
+/-- the `gengy_*` attributes of the object itself, if `gengy_labeled` is set -/
+def LVal.rootCache : LVal → Option Lab
+  | .node cache .. => cache
+  | .list cache .. => cache
+  | _ => none
+
+/-- can the object carry the attributes at all? -/
+def LVal.canCache : LVal → Bool
+  | .node .. => true
+  | .list .. => true
+  | _ => false
+
+mutual
+/-- `relabel_nodes` with its memoisation: the labels it returns and the tree it leaves behind. -/
+def relabelMemo (g : Grammar) : LVal → Lab × LVal
+  | .node (some l) c d e args => (l, .node (some l) c d e args)
+  | .node none c d e args =>
+      if g.isTerminalCls c then
+        let l : Lab := ⟨0, 0, 0, [(.cls c, 1)]⟩
+        (l, .node (some l) c d e args)
+      else
+        let (r, args') := relabelMemoChildren g args
+        let dtt := max 1 r.2.1
+        let l : Lab := ⟨1 + r.1, dtt, r.2.2.1 + dtt, mergeCounts [(.cls c, 1)] r.2.2.2⟩
+        (l, .node (some l) c d e args')
+  | .list (some l) d e vs => (l, .list (some l) d e vs)
+  | .list none d e vs =>
+      let (r, vs') := relabelMemoChildren g vs
+      let l : Lab := ⟨r.1, r.2.1, r.2.2.1, mergeCounts [(.list, 1)] r.2.2.2⟩
+      (l, .list (some l) d e vs')
+  | .tuple vs =>
+      let (r, vs') := relabelMemoChildren g vs
+      (⟨r.1, r.2.1, r.2.2.1, mergeCounts [(.tuple, 1)] r.2.2.2⟩, .tuple vs')
+  | .int i => (⟨0, 0, 0, [(.int, 1)]⟩, .int i)
+  | .float => (⟨0, 0, 0, [(.float, 1)]⟩, .float)
+  | .str s => (⟨0, 0, 0, [(.str, 1)]⟩, .str s)
+  | .bool b => (⟨0, 0, 0, [(.bool, 1)]⟩, .bool b)
+  | .foreign t => (⟨0, 0, 0, [(.other, 1)]⟩, .foreign t)
+def relabelMemoChildren (g : Grammar) :
+    List LVal → (Nat × Nat × Nat × List (TKey × Nat)) × List LVal
+  | [] => ((0, 0, 0, []), [])
+  | c :: cs =>
+      let (l, c') := relabelMemo g c
+      let (r, cs') := relabelMemoChildren g cs
+      let adj := match c with | .list .. => 0 | .tuple .. => 0 | _ => 1
+      ((l.nodes + r.1, max (l.dtt + adj) r.2.1, l.weighted + r.2.2.1, mergeCounts l.types r.2.2.2),
+       c' :: cs')
+end
+
+mutual
+/-- every cached label anywhere in the tree is the label of the (immutable) subtree it sits on -/
+def CachesCorrect (g : Grammar) : LVal → Prop
+  | .node cache c d e args =>
+      (∀ l, cache = some l → l = relabel g (.node c d e (LVal.eraseList args))) ∧
+        CachesCorrectList g args
+  | .list cache d e vs =>
+      (∀ l, cache = some l → l = relabel g (.list d e (LVal.eraseList vs))) ∧
+        CachesCorrectList g vs
+  | .tuple vs => CachesCorrectList g vs
+  | _ => True
+def CachesCorrectList (g : Grammar) : List LVal → Prop
+  | [] => True
+  | v :: vs => CachesCorrect g v ∧ CachesCorrectList g vs
+end
+
+mutual
+/-- every class instance and every list in the tree carries labels -/
+def LVal.fullyLabelled : LVal → Bool
+  | .node cache _ _ _ args => cache.isSome && LVal.fullyLabelledList args
+  | .list cache _ _ vs => cache.isSome && LVal.fullyLabelledList vs
+  | .tuple vs => LVal.fullyLabelledList vs
+  | _ => true
+def LVal.fullyLabelledList : List LVal → Bool
+  | [] => true
+  | v :: vs => LVal.fullyLabelled v && LVal.fullyLabelledList vs
+end
+
+mutual
+/-- labelling happened bottom-up: below a labelled object everything is labelled (what
+`wrap_result` after every constructor application maintains) -/
+def LVal.labelClosed : LVal → Bool
+  | .node cache _ _ _ args =>
+      if cache.isSome then LVal.fullyLabelledList args else LVal.labelClosedList args
+  | .list cache _ _ vs =>
+      if cache.isSome then LVal.fullyLabelledList vs else LVal.labelClosedList vs
+  | .tuple vs => LVal.labelClosedList vs
+  | _ => true
+def LVal.labelClosedList : List LVal → Bool
+  | [] => true
+  | v :: vs => LVal.labelClosed v && LVal.labelClosedList vs
+end
+
+mutual
+/-- all subtrees in pre-order (the tree itself first) -/
+def LVal.subtrees : LVal → List LVal
+  | .node cache c d e args => .node cache c d e args :: LVal.subtreesList args
+  | .list cache d e vs => .list cache d e vs :: LVal.subtreesList vs
+  | .tuple vs => .tuple vs :: LVal.subtreesList vs
+  | v => [v]
+def LVal.subtreesList : List LVal → List LVal
+  | [] => []
+  | v :: vs => LVal.subtrees v ++ LVal.subtreesList vs
+end
+
 end GEVerif
